@@ -61,6 +61,10 @@ RULE = ('cases = (model names <= 30 chars, SED file names fixing the directory-l
         'filters, a source) drawn from the quantifier of C07; every case runs both formats, cube convolution with '
         'memmap on and off and fits with use_memmap on and off; non-trivial = at least 2 models, so that rows can '
         'be exchanged; distinct = distinct canonical hash of the generated inputs')
+# further correspondence stage: the resolved-source rule (`remove_resolved=True`; Model/Resolved.lean,
+# Properties/Resolved.lean) against per-file / cube / memory-mapped fits, which must also agree with each other
+EXTRA_HARNESS = ['harness.resolved']
+
 REQUIRED_BRANCHES = ['perfile', 'cube', 'conv_memmap_on', 'conv_memmap_off', 'fit_memmap_on', 'fit_memmap_off',
                      'sed_nu_inc', 'sed_nu_dec', 'cube_nu_inc', 'cube_nu_dec',
                      'listing_ne_table', 'listing_ne_nameorder', 'table_ne_nameorder', 'padded_table_names',
@@ -71,7 +75,10 @@ REQUIRED_BRANCHES = ['perfile', 'cube', 'conv_memmap_on', 'conv_memmap_off', 'fi
                      'perfile_fit_memmap_on', 'cube_table_permuted', 'cube_table_same_order',
                      'cube_val_unc_units_differ', 'sed_flux_err_units_differ',
                      'fitters_alive_together', 'second_memmap_fitter_other_package', 'convolved_gz', 'parameters_gz',
-                     'remove_resolved_on', 'remove_resolved_changes_fit', 'fit_aperture_dependent', 'fit_aperture_independent', 'multi_aperture_fit_aperture_independent',
+                     'remove_resolved_on', 'remove_resolved_changes_fit',
+                     'table_names_S', 'table_names_U', 'table_name_col_first', 'table_name_col_middle', 'table_name_col_last',
+                     'table_col_dtype_f8', 'table_col_dtype_f4', 'table_col_dtype_i4', 'table_col_dtype_i8',
+                     'cube_names_str', 'cube_names_bytes', 'cube_names_padded', 'fit_aperture_dependent', 'fit_aperture_independent', 'multi_aperture_fit_aperture_independent',
                      'cube_table_accepted_rows_checked_or_refused',
                      'staged_history', 'staged_history_unsorted_table', 'stage_write_parameters',
                      'stage_write_parameter_ranges', 'stage_extract_parameters',
@@ -238,6 +245,8 @@ def gen_case(rng, n=None, table_perm=None, directed=None):
     e = consts(0.005, 50.)
     src = dict(model=rng.randrange(n), fac=[float('%.3g' % (10 ** rng.uniform(-0.15, 0.15))) for _ in range(nf)],
                rel=[nice(rng, 0.08, 0.3, 2) for _ in range(nf)])
+    trepr = dict(name_dtype=rng.choice(['S', 'U']), name_pos=rng.choice(['first', 'middle', 'last']),
+                 col_dtype=rng.choice(['f8', 'f4', 'i4', 'i8', '>f8']))
     stage = directed.get('stage', rng.choice([None, None, 'write_parameters', 'write_parameter_ranges', 'extract_parameters']))
     gz_par = directed.get('gz_par', rng.random() < 0.3)
     if gz_par and not stage:        # somebody has to read the gzipped parameter table
@@ -246,7 +255,7 @@ def gen_case(rng, n=None, table_perm=None, directed=None):
                 sed_store=directed.get('sed_store', rng.choice(['nu_inc', 'nu_dec'])),
                 cube_store=directed.get('cube_store', rng.choice(['nu_inc', 'nu_dec'])),
                 g=g, h=h, c=c, e=e, tilt=tilt, etilt=etilt, general=general, filters=filters, src=src, av=[0., 40.],
-                stage=stage,
+                stage=stage, table_repr=trepr, cube_names_repr=rng.choice(['str', 'bytes', 'padded']),
                 resolved=resolved, gz_conv=directed.get('gz_conv', rng.choice(['none', 'none', 'some', 'all'])),
                 gz_par=gz_par, apdep=ap_dep, second_pkg=directed.get('second_pkg', rng.random() < 0.5),
                 fit_order=rng.sample([0, 1, 2, 3], 4), flat=flat, unit_sed=unit_sed, unit_cube=unit_cube, unit_sed_err=unit_sed_err, unit_cube_unc=unit_cube_unc,
@@ -352,6 +361,40 @@ def write_sed_raw(path, name, wav_um, flux, err, aps_au, unit='mJy', unit_err=No
     fits.HDUList([h0, h1, h2, h3]).writeto(path, overwrite=True)
 
 
+def write_table_repr(model_dir, names, columns, name_dtype='S', name_pos='first', col_dtype='f8'):
+    """parameters.fits in a chosen representation: MODEL_NAME as a bytes ('S') or unicode ('U') column, placed first,
+    in the middle or last among the columns; numeric columns of dtype `col_dtype` ('f8', 'f4', 'i4', 'i8', '>f8':
+    integer dtypes only make sense for integral values).  `columns`: dict name -> list of values"""
+    from astropy.table import Table
+    t = Table()
+    keys = list(columns)
+    k = {'first': 0, 'middle': (len(keys) + 1) // 2, 'last': len(keys)}[name_pos]
+    order = keys[:k] + ['MODEL_NAME'] + keys[k:]
+    for c in order:
+        if c == 'MODEL_NAME':
+            t[c] = np.array(list(names), dtype='%s30' % name_dtype)
+        else:
+            t[c] = np.array(columns[c], dtype=float).astype(col_dtype)
+    t.write(os.path.join(model_dir, 'parameters.fits'), overwrite=True)
+    return order
+
+
+def table_repr(case):
+    return case.get('table_repr') or dict(name_dtype='S', name_pos='first', col_dtype='f8')
+
+
+def cube_names_repr(case):
+    """the cube's model names as handed to SEDCube: a list of str, an array of bytes, or a fixed-width unicode array
+    padded with blanks"""
+    r = case.get('cube_names_repr', 'str')
+    if r == 'bytes':
+        return np.array([x.encode('ascii') for x in case['cube']])
+    if r == 'padded':
+        w = min(30, max(len(x) for x in case['cube']) + 2)
+        return np.array([x.ljust(w) for x in case['cube']], dtype='U%d' % w)
+    return case['cube']
+
+
 def build_perfile(case, d1):
     names = case['names']
     flux, err = sed_arrays(case)
@@ -392,12 +435,12 @@ def build_cube(case, d2):
     if case['cube_store'] == 'nu_inc':      # increasing frequency = decreasing wavelength
         wav, val, unc = wav[::-1], val[:, :, ::-1], unc[:, :, ::-1]
     if unit_u == unit:
-        pk.write_cube_package(d2, case['cube'], wav, val, unc, apertures_au=case['aps'],
+        pk.write_cube_package(d2, cube_names_repr(case), wav, val, unc, apertures_au=case['aps'],
                               params={'PAR1': [float(i) for i in idx]}, unit=astropy_unit(unit), aperture_dependent=apdep(case))
     else:
         # values and uncertainties in different units: the cube keeps (and stores) the two units separately
         pk.write_conf(d2, aperture_dependent=apdep(case), version=2)
-        c = pk.make_cube(case['cube'], wav, val, None, case['aps'], unit=astropy_unit(unit))
+        c = pk.make_cube(cube_names_repr(case), wav, val, None, case['aps'], unit=astropy_unit(unit))
         c.unc = np.array(unc, dtype=float) * astropy_unit(unit_u)
         c.write(os.path.join(d2, 'flux.fits'), overwrite=True)
         pk.write_parameters(d2, list(case['cube']), {'PAR1': [float(i) for i in idx]})
@@ -686,6 +729,14 @@ def impl_side(case, d):
     os.makedirs(d2)
     build_perfile(case, d1)
     build_cube(case, d2)
+    # the parameter tables in the representation the case names (overwrites the plain float64 / MODEL_NAME-first ones)
+    tr = table_repr(case)
+    write_table_repr(d1, case['table'], {'PAR1': [float(names.index(t.strip())) for t in case['table']],
+                                         'PAR2': [float(7 * names.index(t.strip()) + 1) for t in case['table']]}, **tr)
+    write_table_repr(d2, case['cube'], {'PAR1': [float(names.index(x)) for x in case['cube']],
+                                        'PAR2': [float(7 * names.index(x) + 1) for x in case['cube']]}, **tr)
+    br |= {'table_names_' + tr['name_dtype'], 'table_name_col_' + tr['name_pos'], 'table_col_dtype_' + tr['col_dtype'].strip('>'),
+           'cube_names_' + case.get('cube_names_repr', 'str')}
     filters = make_filters(case)
     fnames = [f['name'] for f in case['filters']]
     table_stripped = [t.strip() for t in case['table']]
